@@ -237,13 +237,18 @@ func executeOpenAIRaw(ctx context.Context, sysPrompt, userMsg, apiKey, model, ap
 			continue
 		}
 
-		limitedBody := io.LimitReader(resp.Body, models.MaxAPIResponseSize)
+		// Read one byte beyond the limit so that an oversized response is recognised and refused
+		// instead of being cut off silently (a valid prefix followed by anything would pass).
+		limitedBody := io.LimitReader(resp.Body, models.MaxAPIResponseSize+1)
 		body, err := io.ReadAll(limitedBody)
 		resp.Body.Close()
 
 		if err != nil {
 			lastErr = err
 			continue
+		}
+		if len(body) > models.MaxAPIResponseSize {
+			return "", fmt.Errorf("api response exceeds maximum size of %d bytes", models.MaxAPIResponseSize)
 		}
 
 		if resp.StatusCode == 429 || (resp.StatusCode >= 500 && resp.StatusCode <= 599) {
